@@ -59,6 +59,8 @@ ASSUME = ['TLC results are exhaustive only within the stated constants (1 blob, 
           'BlobStorage over an undo-capable storage (BlobStorage.undo, _packUndoing) is outside the two flavours the '
           'property quantifies over',
           'fsync is switched off in the replays (durability is not part of C13)',
+          'c1 minimizes its cache at the end of each of its transactions (a Blob object activated while a stale savepoint '
+          'file shadowed its committed file keeps that path: a consequence of F3 that depends on the cache, not judged apart)',
           'transaction, persistent, zodbpickle, zope.interface trusted as installed']
 
 
@@ -301,6 +303,13 @@ def _where(detail):
     return re.sub(r'\[[^\]]*\]', '[]', d)[:60]
 
 
+def _first(cov, sig):
+    """every signature is reported once per run (with its first occurrence in job order) and counted"""
+    key = tuple(sorted(sig.items()))
+    cov['signatures'][key] = cov['signatures'].get(key, 0) + 1
+    return cov['signatures'][key] == 1
+
+
 def judge(ctx, out, cov):
     flavour, c = out['flavour'], out['consts']
     for r in out['results']:
@@ -321,16 +330,19 @@ def judge(ctx, out, cov):
                'origin': r['origin']}
         mm = r['mismatch']
         if mm:
+            cov['mismatches'] += 1
             sig = {'flavour': flavour, 'action': mm['action'], 'what': mm['what'], 'where': _where(mm['detail'][0])}
-            ctx.violation(sig, '%s: the code diverges from ZBlob at step %d %s(%s) [%s]: %s   after: %s' % (
-                flavour, mm['step'], mm['action'], ','.join(mm['args']), mm['what'], '; '.join(mm['detail'][:3]),
-                ' '.join(mm['prefix'][-25:])), replay=rep)
+            if _first(cov, sig):
+                ctx.violation(sig, '%s: the code diverges from ZBlob at step %d %s(%s) [%s]: %s   after: %s' % (
+                    flavour, mm['step'], mm['action'], ','.join(mm['args']), mm['what'], '; '.join(mm['detail'][:3]),
+                    ' '.join(mm['prefix'][-25:])), replay=rep)
         for v in r['viol']:
             cov['property_violations'][v['kind']] = cov['property_violations'].get(v['kind'], 0) + 1
             sig = {'flavour': flavour, 'inv': v['inv'], 'kind': v['kind']}
-            ctx.violation(sig, '%s: %s - state reached by the real code (conforming to ZBlob call by call) after: %s' % (
-                flavour, TEXT.get(v['kind'], v['kind']), ' '.join(v['prefix'][-25:])),
-                replay=dict(rep, script=to_script(v['prefix'])))
+            if _first(cov, sig):
+                ctx.violation(sig, '%s: %s - state reached by the real code (conforming to ZBlob call by call) after: %s' % (
+                    flavour, TEXT.get(v['kind'], v['kind']), ' '.join(v['prefix'][-25:])),
+                    replay=dict(rep, script=to_script(v['prefix'])))
 
 
 def cex_steps(trace):
@@ -383,13 +395,18 @@ def run(ctx):
         name = a[0][4:]
         ok = all(r['mismatch'] is None for r in out['results'])
         cexs[name]['code_follows'] = 'repaired' if ok else 'neither'
-        judge(ctx, out, cov)
+        if ok:
+            judge(ctx, out, cov)
+        else:
+            # neither: something else is wrong on the way; conformance runs against the model of the code as it was
+            # when the check was built and reports where the code leaves it
+            as_code[out['flavour']][cexs[name]['deviation']] = True
 
     # ---- 1 + 3. the design (exhaustive) and conformance, side by side -----------------------------------------
     jobs = []
     for fl in FLAVOURS:
         rc = dict(REPAIRED, **small)
-        if fl == 'mixin' or not q:
+        if fl == 'mixin':
             # (with the deviation constants cleared the two flavours differ in Pack and Undo only, which NextTxn lacks)
             jobs.append(('mc', ('design-%s-txn' % fl, bd.consts(fl, MaxTid=4, MaxSp=1, **rc), 'NextTxn', DESIGN_INV, DESIGN_PROPS, 3, 1500, sc)))
             jobs.append(('mc', ('design-%s-sp2' % fl, bd.consts(fl, MaxTid=3, MaxSp=2, **rc), 'NextTxn', DESIGN_INV, DESIGN_PROPS, 2, 1500, sc)))
@@ -398,8 +415,9 @@ def run(ctx):
         if not q:
             jobs.append(('mc', ('design-%s-hist-nopack' % fl, bd.consts(fl, MaxTid=6, MaxSp=1, **rc), 'NextHistNoPack',
                                 DESIGN_INV, DESIGN_PROPS, 3, 3000, sc)))
-            jobs.append(('mc', ('design-%s-txn2' % fl, bd.consts(fl, MaxTid=4, MaxSp=2, **dict(rc, Atoms=('a', 'b'))), 'NextTxn',
-                                DESIGN_INV[:-1], DESIGN_PROPS, 3, 3000, sc)))
+            if fl == 'mixin':
+                jobs.append(('mc', ('design-%s-txn2' % fl, bd.consts(fl, MaxTid=4, MaxSp=2, **dict(rc, Atoms=('a', 'b'))), 'NextTxn',
+                                    DESIGN_INV[:-1], DESIGN_PROPS, 4, 3000, sc)))
     nsim = 24 if q else 700
     nrand = 120 if q else 3000
     for fl in FLAVOURS:
@@ -447,7 +465,7 @@ def run(ctx):
     for fl in FLAVOURS:
         need = [x for x in bd.ALL_ACTIONS if fl == 'mixin' or not x.startswith('U')]
         miss = [x for x in need if not cov['actions'][fl].get(x)]
-        if miss and not ctx.violations:
+        if miss and not cov['mismatches']:
             raise RuntimeError('%s: actions never replayed: %s' % (fl, miss))
     return ctx.finish({
         'evaluations': cov['behaviours'],
@@ -467,9 +485,11 @@ def run(ctx):
         'tlc_counterexamples_as_code': cexs,
         'design_runs': design,
         'property_violation_states': cov['property_violations'],
+        'occurrences_per_signature': {' '.join('%s=%s' % kv for kv in k): n for k, n in sorted(cov['signatures'].items())},
         'tmp_files_seen_max': cov['tmp_files_seen_max'],
         'stray_files_max': cov['stray_files_max'],
         'behaviours_per_source': cov['runs'],
+        'behaviours_diverging': cov['mismatches'],
         'samples': cov['samples'] or [list(cexs.values())[0]['calls']],
         'exhaustive': False,
     }, ASSUME)
@@ -484,7 +504,8 @@ def _sig_of(trace):
 
 def _new_cov():
     return {'behaviours': 0, 'steps': 0, '_distinct': set(), '_nontrivial': set(), 'actions': {fl: {} for fl in FLAVOURS},
-            'samples': [], 'property_violations': {}, 'tmp_files_seen_max': 0, 'stray_files_max': 0, 'runs': {}}
+            'samples': [], 'property_violations': {}, 'tmp_files_seen_max': 0, 'stray_files_max': 0, 'runs': {},
+            'signatures': {}, 'mismatches': 0}
 
 
 def replay(ctx, data):
